@@ -77,13 +77,29 @@ def all_wf_txout_at(xs, n, i):
 @contract("pycoin.coins.bitcoin.Tx:Tx.has_witness_data")
 class tx_has_witness_data:
     props = ["C07"]
-    verify = False
-    assumed_reason = "generator expression over a collection of symbolic length (outside the engine fragment); checked bounded in C07.tx_roundtrip"
     sig = dict(self=TX)
     returns = Bool()
 
     def ensures_any(self, result):
         return result == any_witness(self.txs_in)
+
+    canaries = [("len(tx_in.witness) > 0", "len(tx_in.witness) > 1")]
+
+
+@lemma(sig=dict(xs=SeqOf(TXIN), n=Int(), i=Int()), induct=lambda xs, n, i: n, props=["C07"])
+def any_witness_mono(xs, n, i):
+    """a witness among the first i inputs is a witness among the first n >= i"""
+    if 0 <= i and i < n:
+        any_witness_mono(xs, n - 1, i)
+    return implies(0 <= i and i <= n and any_witness_upto(xs, i), any_witness_upto(xs, n))
+
+
+@invariant("pycoin.coins.bitcoin.Tx:Tx.has_witness_data", "comp0")
+def _inv_has_witness(self, _r, _i):
+    n = len(self.txs_in)
+    if _i < n:
+        any_witness_mono(self.txs_in, n, _i + 1)
+    return (_r == False, not any_witness_upto(self.txs_in, _i))
 
 
 def _tx_head(self, include_witnesses):
